@@ -41,12 +41,37 @@ macro_rules! fam {
 fam!(A, RA, 0u8);
 fam!(B, RB, 1u8);
 
-/// 0 = A, 1 = B, 2 = Box<A>, 3 = Rc<A>, 4 = Arc<A>, 5 = Box<B>
+// Zero-sized families: unit structs with identical (empty) representation, hash, Debug text and - when boxed - address.
+macro_rules! zfam {
+  ($name:ident, $res:ident, $tag:expr) => {
+    #[derive(Clone, Copy, PartialEq, Eq, Hash)]
+    pub struct $name;
+    impl std::fmt::Debug for $name { fn fmt(&self, f: &mut std::fmt::Formatter<'_>) -> std::fmt::Result { write!(f, "Z") } }
+    #[derive(Clone, Copy, PartialEq, Eq, Hash)]
+    pub struct $res;
+    impl std::fmt::Debug for $res { fn fmt(&self, f: &mut std::fmt::Formatter<'_>) -> std::fmt::Result { write!(f, "RZ") } }
+    impl MapKey for $res { type Value = u8; }
+    impl Task for $name {
+      type Output = (u8, u8, Option<u8>);
+      fn execute<C: Context>(&self, ctx: &mut C) -> Self::Output {
+        let v = ctx.read(&$res, MapEqualsChecker).ok().and_then(|r| r.copied());
+        ($tag, 0, v)
+      }
+    }
+  };
+}
+zfam!(Z1, RZ1, 2u8);
+zfam!(Z2, RZ2, 3u8);
+
+pub const NFAM: u8 = 9;
+
+/// 0 = A, 1 = B, 2 = Box<A>, 3 = Rc<A>, 4 = Arc<A>, 5 = Box<B>, 6 = Z1, 7 = Z2, 8 = Box<Z1> (zero-sized: id is always 0)
 #[derive(Clone, Copy, Debug, Serialize, Deserialize, PartialEq, Eq, Hash, PartialOrd, Ord)]
 pub struct Spec { pub fam: u8, pub id: u8 }
 
 impl Spec {
-  fn base(&self) -> u8 { match self.fam % 6 { 1 | 5 => 1, _ => 0 } }
+  fn base(&self) -> u8 { match self.fam % NFAM { 1 | 5 => 1, 6 | 8 => 2, 7 => 3, _ => 0 } }
+  fn canon(&self) -> Spec { let fam = self.fam % NFAM; Spec { fam, id: if fam >= 6 { 0 } else { self.id } } }
 }
 
 #[derive(Clone, PartialEq, Eq, Hash, Debug)]
@@ -54,13 +79,16 @@ struct Root(Vec<Spec>);
 impl Task for Root {
   type Output = Vec<(u8, u8, Option<u8>)>;
   fn execute<C: Context>(&self, ctx: &mut C) -> Self::Output {
-    self.0.iter().map(|s| match s.fam % 6 {
+    self.0.iter().map(|s| match s.fam % NFAM {
       0 => ctx.require(&A(s.id), EqualsChecker),
       1 => ctx.require(&B(s.id), EqualsChecker),
       2 => ctx.require(&Box::new(A(s.id)), EqualsChecker),
       3 => ctx.require(&Rc::new(A(s.id)), EqualsChecker),
       4 => ctx.require(&Arc::new(A(s.id)), EqualsChecker),
-      _ => ctx.require(&Box::new(B(s.id)), EqualsChecker),
+      5 => ctx.require(&Box::new(B(s.id)), EqualsChecker),
+      6 => ctx.require(&Z1, EqualsChecker),
+      7 => ctx.require(&Z2, EqualsChecker),
+      _ => ctx.require(&Box::new(Z1), EqualsChecker),
     }).collect()
   }
 }
@@ -75,6 +103,9 @@ fn spec_of(k: &dyn KeyObj) -> Option<Spec> {
   if let Some(x) = a.downcast_ref::<Rc<A>>() { return Some(Spec { fam: 3, id: x.0 }); }
   if let Some(x) = a.downcast_ref::<Arc<A>>() { return Some(Spec { fam: 4, id: x.0 }); }
   if let Some(x) = a.downcast_ref::<Box<B>>() { return Some(Spec { fam: 5, id: x.0 }); }
+  if a.downcast_ref::<Z1>().is_some() { return Some(Spec { fam: 6, id: 0 }); }
+  if a.downcast_ref::<Z2>().is_some() { return Some(Spec { fam: 7, id: 0 }); }
+  if a.downcast_ref::<Box<Z1>>().is_some() { return Some(Spec { fam: 8, id: 0 }); }
   None
 }
 
@@ -84,18 +115,18 @@ impl Tracker for ExecTracker {
 }
 
 #[derive(Clone, Debug, Serialize, Deserialize, PartialEq, Eq, Hash)]
-pub enum IStep { Session, ChangeA { id: u8, val: Option<u8> }, ChangeB { id: u8, val: Option<u8> } }
+pub enum IStep { Session, ChangeA { id: u8, val: Option<u8> }, ChangeB { id: u8, val: Option<u8> }, ChangeZ { which: u8, val: Option<u8> } }
 
 #[derive(Clone, Debug, Serialize, Deserialize, PartialEq, Eq, Hash)]
 pub struct ICase { pub specs: Vec<Spec>, pub steps: Vec<IStep> }
 
 fn key_obj(s: &Spec) -> Box<dyn KeyObj> {
-  match s.fam % 6 { 0 => Box::new(A(s.id)), 1 => Box::new(B(s.id)), 2 => Box::new(Box::new(A(s.id))), 3 => Box::new(Rc::new(A(s.id))), 4 => Box::new(Arc::new(A(s.id))), _ => Box::new(Box::new(B(s.id))) }
+  match s.fam % NFAM { 0 => Box::new(A(s.id)), 1 => Box::new(B(s.id)), 2 => Box::new(Box::new(A(s.id))), 3 => Box::new(Rc::new(A(s.id))), 4 => Box::new(Arc::new(A(s.id))), 5 => Box::new(Box::new(B(s.id))), 6 => Box::new(Z1), 7 => Box::new(Z2), _ => Box::new(Box::new(Z1)) }
 }
 fn hash_of(k: &dyn KeyObj) -> u64 { let mut h = DefaultHasher::new(); k.hash(&mut h); h.finish() }
 
 pub fn check(case: &ICase, stats: &mut Stats) -> CheckResult {
-  let specs: Vec<Spec> = case.specs.iter().map(|s| Spec { fam: s.fam % 6, id: s.id }).collect();
+  let specs: Vec<Spec> = case.specs.iter().map(|s| s.canon()).collect();
   // --- Part 1: dyn KeyObj equality and hashing over all pairs of the case's keys (separately constructed).
   for a in &specs {
     for b in &specs {
@@ -109,10 +140,19 @@ pub fn check(case: &ICase, stats: &mut Stats) -> CheckResult {
       if c.as_ref() != ka.as_ref() { return Err(Failure::new(format!("clone of key {:?} is not equal to it", a))); }
     }
   }
+  // Resource keys of the four resource types, as trait objects.
+  {
+    let rkeys: Vec<(u8, u8, Box<dyn KeyObj>)> = vec![(0, 0, Box::new(RA(0))), (0, 1, Box::new(RA(1))), (1, 0, Box::new(RB(0))), (1, 1, Box::new(RB(1))), (2, 0, Box::new(RZ1)), (3, 0, Box::new(RZ2)), (2, 0, Box::new(RZ1)), (4, 0, Box::new(Z1)), (5, 0, Box::new(()))];
+    for (ta, ia, ka) in &rkeys { for (tb, ib, kb) in &rkeys {
+      let same = ta == tb && ia == ib;
+      if (ka.as_ref() == kb.as_ref()) != same { return Err(Failure::new(format!("dyn KeyObj equality of resource keys {:?}#{} and {:?}#{} (type tags {} / {}) is {}, but (type, value) identity says {}", ka, ia, kb, ib, ta, tb, !same, same))); }
+    } }
+  }
   // --- Part 2: inside a Pie instance.
   let mut pie = Pie::with_tracker(ExecTracker);
   let mut ra: BTreeMap<u8, u8> = BTreeMap::new();
   let mut rb: BTreeMap<u8, u8> = BTreeMap::new();
+  let mut rz: [Option<u8>; 2] = [None, None];
   // what each distinct key saw at its last execution
   let mut seen: BTreeMap<Spec, Option<u8>> = BTreeMap::new();
   let mut root_seen: Option<Vec<(u8, u8, Option<u8>)>> = None;
@@ -134,13 +174,22 @@ pub fn check(case: &ICase, stats: &mut Stats) -> CheckResult {
         let other = pie.resource_state_mut::<RA>().get_global_map_mut().get(&RA(*id)).copied();
         if other != ra.get(id).copied() { return Err(Failure::new(format!("step {}: changing resource RB({}) changed what RA({}) holds: {:?}", i, id, id, other))); }
       }
+      IStep::ChangeZ { which, val } => {
+        let w = (*which % 2) as usize;
+        if w == 0 { let m = pie.resource_state_mut::<RZ1>().get_global_map_mut(); match val { Some(v) => { m.insert(RZ1, *v); } None => { m.remove(&RZ1); } } }
+        else { let m = pie.resource_state_mut::<RZ2>().get_global_map_mut(); match val { Some(v) => { m.insert(RZ2, *v); } None => { m.remove(&RZ2); } } }
+        rz[w] = *val;
+        let o1 = pie.resource_state_mut::<RZ1>().get_global_map_mut().get(&RZ1).copied();
+        let o2 = pie.resource_state_mut::<RZ2>().get_global_map_mut().get(&RZ2).copied();
+        if [o1, o2] != rz { return Err(Failure::new(format!("step {}: after changing the zero-sized resource #{} the two zero-sized resources hold {:?}, expected {:?}", i, w, [o1, o2], rz))); }
+      }
       IStep::Session => {
         EXECS.with(|e| e.borrow_mut().clear());
         let out = pie.new_session().require(&Root(specs.clone()));
         let mut execs = EXECS.with(|e| e.borrow().clone());
         execs.sort();
         // Expected: each distinct key executes iff never executed or its own resource changed since.
-        let cur = |s: &Spec| -> Option<u8> { if s.base() == 0 { ra.get(&s.id).copied() } else { rb.get(&s.id).copied() } };
+        let cur = |s: &Spec| -> Option<u8> { match s.base() { 0 => ra.get(&s.id).copied(), 1 => rb.get(&s.id).copied(), 2 => rz[0], _ => rz[1] } };
         let mut want_exec: Vec<Spec> = vec![];
         // The root validates its requires in order and stops at the first inconsistent one; keys after that are
         // re-required by the re-executing root. Either way every distinct key is made consistent exactly once.
@@ -171,12 +220,13 @@ pub fn check(case: &ICase, stats: &mut Stats) -> CheckResult {
   Ok(())
 }
 
-fn spec() -> impl Strategy<Value=Spec> { (0u8..6, 0u8..3).prop_map(|(fam, id)| Spec { fam, id }) }
+fn spec() -> impl Strategy<Value=Spec> { (0u8..NFAM, 0u8..3).prop_map(|(fam, id)| Spec { fam, id }.canon()) }
 fn istep() -> impl Strategy<Value=IStep> {
   prop_oneof![
     3 => Just(IStep::Session),
     2 => (0u8..3, proptest::option::of(0u8..3)).prop_map(|(id, val)| IStep::ChangeA { id, val }),
     2 => (0u8..3, proptest::option::of(0u8..3)).prop_map(|(id, val)| IStep::ChangeB { id, val }),
+    2 => (0u8..2, proptest::option::of(0u8..3)).prop_map(|(which, val)| IStep::ChangeZ { which, val }),
   ]
 }
 pub fn strategy() -> impl Strategy<Value=ICase> {
@@ -189,7 +239,7 @@ pub fn replay(path: &Path) -> Result<CheckResult, String> {
 }
 
 pub fn run(tier: Tier, seed: u64) -> i32 {
-  let rule = "proptest-generated key lists drawn from six task types with identical representation, hash and Debug text (newtypes A(u8), B(u8), Box<A>, Rc<A>, Arc<A>, Box<B>) and two resource types RA(u8)/RB(u8) with colliding ids, x histories of sessions and changes to RA(i)/RB(i); oracle: dyn KeyObj equality holds iff same concrete type and equal value, equal keys hash equally (all pairs of separately constructed keys); inside a Pie instance a root task requires the listed keys: every distinct (type, value) executes exactly once when new or when its own resource changed, never because a same-bytes key of another type changed, and every key gets its own output; changing RA(i) never changes RB(i); non-trivial = case with two keys of equal bytes and different types; distinct by case hash";
+  let rule = "proptest-generated key lists drawn from nine task types with identical representation, hash and Debug text (newtypes A(u8), B(u8), Box<A>, Rc<A>, Arc<A>, Box<B>, and the zero-sized unit structs Z1, Z2, Box<Z1>, whose boxes even share an address) and four resource types RA(u8)/RB(u8)/RZ1/RZ2 with colliding ids, x histories of sessions and changes to RA(i)/RB(i); oracle: dyn KeyObj equality holds iff same concrete type and equal value, equal keys hash equally (all pairs of separately constructed keys); inside a Pie instance a root task requires the listed keys: every distinct (type, value) executes exactly once when new or when its own resource changed, never because a same-bytes key of another type changed, and every key gets its own output; changing RA(i) never changes RB(i); non-trivial = case with two keys of equal bytes and different types; distinct by case hash";
   let mut report = Report::new("C15", tier, seed, "exploration", rule);
   let known = Known::load("C15");
   super::prologue(&mut report, &known);
